@@ -19,6 +19,12 @@ LEVEL_TEXT = {
     "C10": "proof: presentation-request wrapper contract on every decorated handler: one request iff no marker, marker only after a successful write, re-armed by node presentation",
     "C11": "proof: handle_i_id_request contract (range, fresh, registered before write, response shape, failure frames) over an arbitrary registry",
     "C12": "proof: trichotomy contract of Gateway.send over all commands/buffer flag/versions; outgoing handlers proved on their bodies",
+    "C13": "proof of the repository-code parts (save loop serialises every node; make_node/make_child restore every named attribute; legacy hooks; reach domain of validated fields inside their accept domain incl. the battery handler's range); marshmallow's and json's own field round trips are assumed contracts cross-checked by a bounded native round trip",
+    "C14": "proof: exceptional postcondition raises-only{PersistenceReadError} of Persistence.load over an arbitrary file state and an arbitrary parsed JSON value, with the real schema hooks and constructors; missing and empty file cases",
+    "C15": "crash Hoare logic: one crash-condition obligation per file-system effect met by the symbolic execution of save; the truncate-in-place and partial-write crash points fail and are recorded known findings (not repairable without editing the suite), the remaining ones are discharged",
+    "C16": "proof: contracts of __aenter__/__aexit__/start/stop/save and both saver closures over ghost counters (live tasks, completed writes, connection); cancellation as an exceptional outcome of the saver's awaits",
+    "C17": "proof: StreamTransport.read/write/connect/disconnect for both concrete transports over ghost byte streams; every exception path ends in a TransportError; chunking independence is the assumed readuntil contract",
+    "C18": "proof: topic/line mapping both ways and their composition for all prefixes and payloads, subscriptions, publish log, FIFO queue contract, receive task leaves its loop only cancelled or after enqueueing an error, disconnect does not raise",
     "C19": "proof: all versions proved against specifications derived from the same leaf specs + structural equality of the derived specs per (command,type) and table monotonicity",
 }
 NOTE = ("Trusted: the VC generator pyvc (written for this task), z3/cvc5, and the assumed library contracts listed in each evidence file "
@@ -35,7 +41,7 @@ for p in props:
             "evidence_file": f"evidence/{pid}.json",
             "replay_cmd_template": f"./check {pid} --replay {{path}}",
             "engine": "pyvc",
-            "level_claimed": {"category": "proof", "text": LEVEL_TEXT[pid], "design_ref": f"DESIGN.md section 8 ({pid})"},
+            "level_claimed": {"category": "other" if pid == "C15" else "proof", "text": LEVEL_TEXT[pid], "design_ref": f"DESIGN.md section 8 ({pid})"},
             "level_note": NOTE,
             "technique": "contract-based deductive verification: sidecar contracts on the real functions, VCs generated from the parsed source by pyvc, discharged by z3 (cvc5 for unknowns)",
         })
